@@ -436,7 +436,9 @@ func (s *Server) Reset(reason string, timeoutMs int64) (*statejson.ResetDescript
 
 	done := <-s.ResetDoneChan
 	verifhook.Point("serverReset.beforeFinalRelease")
-	s.Release()
+	// The reservation that was being reset has been released by Clear() above. Releasing
+	// again here would hit whatever is reserved by now: an invocation admitted after
+	// Clear() would have its reservation cancelled and return an empty success.
 
 	if done.ErrorType != "" {
 		return nil, errors.New(string(done.ErrorType))
@@ -760,7 +762,9 @@ func (s *Server) Invoke(responseWriter http.ResponseWriter, invoke *interop.Invo
 		log.Debug("Invoke() release error")
 	case <-releaseSuccessChan:
 		verifhook.Point("invoke.beforeFinalRelease")
-		s.Release()
+		// AwaitRelease() has released this invocation's reservation already (or it was
+		// released by a reset). Releasing again here would cancel the reservation of the
+		// next invocation if it was admitted in the meantime.
 		log.Debug("Invoke() success")
 	}
 
